@@ -50,6 +50,8 @@ def detector_decide(kind):
                 return kind.startswith('spherical')
             if name == 'r':
                 return kind == 'spherical-r'
+            if name in ('x', 'y', 'z'):
+                return not kind.startswith('spherical')
             if name == 'flat':
                 return kind == 'cartesian'
             if name == 'point':
